@@ -593,5 +593,14 @@ func BaseProfilesC15() []Program {
 		{Name: "vb", Level: "violation+info", Class: 0, F: a(Atom{Path: P(1), Kind: "maxCount", N: 0})},
 		{Name: "vc", Level: "warning", Class: 1, F: a(Atom{Path: P(0), Kind: "minCount", N: 1})},
 	}}
-	return []Program{b1, b2, b3, b4, b5}
+	// a wide disjunction whose operands are conjunctions over even and odd predicates: the translator
+	// sorts operands by their text, so renaming prefixes (an alias for the odd predicates) reorders them
+	pair := func(i, j int) Formula {
+		return And{[]Formula{a(Atom{Path: P(i), Kind: "minCount", N: 1}), a(Atom{Path: P(j), Kind: "minCount", N: 1})}}
+	}
+	b6 := Program{Name: "B6", Validations: []Validation{
+		{Name: "va", Level: "violation", Class: 0, F: Or{[]Formula{pair(0, 1), pair(2, 3), pair(4, 5), pair(6, 7), pair(1, 4)}}},
+		{Name: "vb", Level: "warning", Class: 0, F: Or{[]Formula{pair(7, 0), pair(5, 2), pair(3, 6), pair(1, 1), mc(2), mc(5)}}},
+	}}
+	return []Program{b1, b2, b3, b4, b5, b6}
 }
